@@ -12,13 +12,14 @@ Definition w_sharp_cr : str := [35; 97; 13; 10]%N.                     (* #a\r\n
 Definition w_sharp_star : str := [35; 42; 10; 42; 47]%N.               (* #*\n*/ *)
 Definition w_block_cr : str := [47; 42; 120; 42; 13; 47; 42; 47]%N.    (* /*x*\r/*/ *)
 
-(* the UNIT token of TPL is placed after the blanks that follow it: offset 2 instead of 1 *)
+(* repaired (tpl/scanner no longer skips blanks while a unit is pending): the UNIT token is at
+   offset 1 in both dialects *)
 Lemma unit_space_streams :
-  astream ul ud XGo true w_unit_space
+  astream ul ud Tpl true w_unit_space
     = Some [(T_INT, 0, [49%N]); (T_UNIT, 1, [109%N]); (T_IDENT, 3, [120%N]); (T_SEMICOLON, 4, [10%N]); (T_EOF, 4, [])]
-  /\ astream ul ud Tpl true w_unit_space
-    = Some [(T_INT, 0, [49%N]); (T_UNIT, 2, [109%N]); (T_IDENT, 3, [120%N]); (T_SEMICOLON, 4, [10%N]); (T_EOF, 4, [])].
-Proof. split; vm_compute; reflexivity. Qed.
+  /\ astream ul ud Tpl true w_unit_space = astream ul ud XGo true w_unit_space
+  /\ astream ul ud Tpl false w_unit_space = astream ul ud XGo false w_unit_space.
+Proof. repeat split; vm_compute; reflexivity. Qed.
 (* a '#' comment keeps its carriage return in TPL, loses it in XGo *)
 Lemma sharp_cr_streams :
   astream ul ud XGo true w_sharp_cr = Some [(T_COMMENT, 0, [35; 97]%N); (T_EOF, 4, [])]
